@@ -3,63 +3,110 @@ from common import LEAN_TB
 CFG = {'lean_modules': ['ObiVerif.Props.C12'],
  'gen': True,
  'thorough_seeds': 8,
- 'rule': 'cases = (sample sheet, read): sheets rendered in the old ngsfilter text or in CSV with @param lines (1-3 markers, plain or IUPAC primers, tag lengths '
-         '0/3..9 per side, asymmetric and absent tags, shared tags between samples, strict/hamming/indel, spacers 0..3 (unequal on the two sides), tag delimiters, rescue indels, primer '
-         'budgets 0..4 and -e override, global / forward_ / reverse_ / per-primer parameter forms, comments, upper case, permuted columns, extra annotation '
-         'column) read by the real ReadNGSFilter; reads BUILT from a declared sample: flank + tag + spacer + primer instance + barcode + rc(primer instance) + '
-         'rc(spacer) + rc(tag) + flank in both orientations (1/6 of the reads without left / right flank: the outer tag touches the read end), primer mismatches '
-         'within and beyond the budget, tag errors incl. built ties between two declared tags, missing priming sites, chimeras of '
-         '1..3 amplicons, truncated reads; expectations (generator intent + strand symmetry) are checked for fixed-length AND delimited tags; hand-picked sheets '
-         '(inconsistent tag lengths, a primer used twice, close primers, duplicated tag pair, empty read, '
-         'primer dimers); unit cases of Hamming / Levenshtein / lookForTag / lookForRescueTag; `sheet` cases: generated CSV records (0..12 @param lines over the 16 '
-         'parameter names + unknown names, 0/1/2/3 values, per-primer forms with known / unknown / upper-case primers, valid and invalid integers, delimiters, '
-         'booleans, matching modes; permuted / duplicated / missing columns, extra columns, tag forms a:b, a, -:b, a:-, -, "", a:b:c, duplicated tag pairs, shared primers, '
-         'rows of the wrong width, header only, @param after the header; decorated with leading blanks, comments, CRLF, no final newline) and old-format lines '
-         '(blank / comment lines, tabs, 5..7 fields, annotation parts) read by the real ReadNGSFilter and by the model of the reader; non-trivial = distinct well-formed case',
+ 'rule': 'cases = (sample sheet, read): sheets rendered in the old ngsfilter text or in CSV with @param lines (1-3 markers, plain or IUPAC primers, tag '
+         'lengths 0/3..9 per side, asymmetric and absent tags, shared tags between samples, strict/hamming/indel, spacers 0..3 (unequal on the two sides), tag '
+         'delimiters, rescue indels, primer budgets 0..4 and -e override, global / forward_ / reverse_ / per-primer parameter forms, comments, upper case, '
+         'permuted columns, extra annotation column) read by the real ReadNGSFilter; reads BUILT from a declared sample: flank + tag + spacer + primer '
+         'instance + barcode + rc(primer instance) + rc(spacer) + rc(tag) + flank in both orientations (1/6 of the reads without left / right flank: the outer '
+         'tag touches the read end), primer mismatches within and beyond the budget, tag errors incl. built ties between two declared tags, missing priming '
+         'sites, chimeras of 1..3 amplicons, truncated reads; expectations (generator intent + strand symmetry) are checked for fixed-length AND delimited '
+         'tags; hand-picked sheets (inconsistent tag lengths, a primer used twice, close primers, duplicated tag pair, empty read, primer dimers); unit cases '
+         'of Hamming / Levenshtein / lookForTag / lookForRescueTag; `multi` cases = HISTORIES: one sheet, 2..8 reads sent in order through ONE library object '
+         "(and each read again through a library read afresh), then the whole obimultiplex stage (IExtractBarcode with the options set through the command's "
+         'own parser: nothing / --keep-errors / -u file / both) on the same reads: histories on libraries made for them (hamming / indel, same tag length on '
+         'both sides, forward and reverse tag SETS different but drawn from one pool, close neighbours and ties, fixed / delimited / rescue extraction) whose '
+         'reads show the same declared or erroneous tag string first on one side then on the other side of later reads, exchanged tag pairs (tag jumps), plus '
+         'data sets of generated reads of every class (chimeras, lone sites, truncated reads) on random libraries; `sheet` cases: generated CSV records (0..12 '
+         '@param lines over the 16 parameter names + unknown names, 0/1/2/3 values, per-primer forms with known / unknown / upper-case primers, valid and '
+         'invalid integers, delimiters, booleans, matching modes; permuted / duplicated / missing columns, extra columns, tag forms a:b, a, -:b, a:-, -, "", '
+         'a:b:c, duplicated tag pairs, shared primers, rows of the wrong width, header only, @param after the header; decorated with leading blanks, comments, '
+         'CRLF, no final newline) and old-format lines (blank / comment lines, tabs, 5..7 fields, annotation parts) read by the real ReadNGSFilter and by the '
+         'model of the reader; non-trivial = distinct well-formed case',
  'technique': 'Lean 4 theorems on a transcription of multimatch.go (distances, tag extractors, nearest-unique-tag loop, sample identification, the '
-              'forward->reverse state machine) and of the semantic part of ngsfilter_read.go + the setters of ngslibrary.go / marker.go + differential correspondence '
-              'with the real ReadNGSFilter (library dump: every parameter, tag length, sample, annotation of every marker, or sheet-error / fatal / panic) and '
-              'ExtractMultiBarcodeSliceWorker, the primer hits '
-              'being obtained from the real matcher (C10) and handed to the model as data + generator-knows-the-answer oracle, strand-symmetry oracle, '
-              'brute-force safety oracle and determinism oracles (demultiplexing and sheet reading) on the real code',
- 'level_text': 'Proved in Lean for all inputs on the transcription of multimatch.go: hamming_spec; levenshtein_is_edit_distance + levenshtein_eq_editDist (the two-row '
-               'programme = the textbook recurrence on the strings AS GIVEN: the recurrence is proved invariant under reversal) + levenshtein_min_script (= the cost of a '
-               'cheapest edit script, inductive specification Align, independent of any recurrence) + levenshtein_metric (zero iff equal, symmetric, triangle inequality, '
-               'length bounds); closest_unique / closest_unique_complete / closest_unique_perm (a tag is returned iff '
-               'it is the unique minimiser, whatever the order in which the Go map delivers the tags); never_wrong_sample (a sample is returned only if the '
-               'proposed pair is declared for it and each proposed tag is identified from the extracted tag under strict / hamming / indel), under the hypothesis '
-               'that CheckTagLength accepted the sheet (wf_tags_nonempty, tagExtractor_untagged), with the counterexample wrong_sample_without_taglength_check '
-               '(the input that failed on the unrepaired code), and accepted_sheet_never_wrong_sample: that hypothesis is discharged for every marker of a sheet accepted by '
-               'the model of ReadNGSFilter in either format (accepted_sheet_wellformed: primer unicity survives the @param lines, CheckTagLength holds; '
-               'params_touch_parameters_only: no @param line, whatever its name / arity / value, changes primers or the tag pair -> sample table); '
-               'unassigned_is_flagged / no_amplicon_is_flagged; constructed_read (fixed tags) and constructed_read_any_tags (each side fixed-length OR delimited without '
-               'rescue: any flanks, the declared spacers, absent tags, any marker position in the sheet, all three modes: exactly one amplicon = barcode, forward, matches, tags, declared sample, '
-               'given primer hits at the built sites only); constructed_read_rc(_any_tags) and strand_symmetry(_any_tags) (the reverse-complemented built read with the mirrored hits '
-               'gives the same amplicon, direction flipped — the different window widths of the two delimited extractors are proved immaterial on built reads, and '
-               'delimited_window_asymmetry shows the exact read shape, outside built reads, where they matter); machine_selects_adjacent_pairs and pairing_strand_symmetric (chimeras: the state machine extracts '
-               'exactly the adjacent forward/complementary hit pairs, and that selection is mirror-symmetric). The models are tied to /repo by running the real '
-               'ReadNGSFilter on generated CSV records / old-format lines (library dump compared with the model of the reader) and ReadNGSFilter + '
-               'ExtractMultiBarcodeSliceWorker on generated sheets (both formats) and built reads, comparing every returned record '
-               '(id, sequence, all annotations) with the model fed with the primer hits of the real matcher; oracles on the real code: generator intent, '
-               'strand symmetry (incl. chimeras and delimited tags), brute-force safety, determinism over repeated runs, sheet-as-read = sheet-as-declared.',
- 'level_note': 'Trusted: Lean kernel; the transcriptions Model/Demux.lean and Model/NgsFilter.lean; the primer matcher (hits are data, C10). Partial: strand symmetry of what each '
-               'selected pair yields is proved for built reads with fixed-length or delimited tags; the rescue extractors (delimiter + tag indels) are modelled and compared '
-               'but no positive theorem is proved about them (the property exercises them for the safety clause only: never_wrong_sample covers them); for arbitrary '
-               'chimeras symmetry is the harness oracle. The sheet reader is modelled from the CSV records / the lines on: the byte-level layers (mimetype text sniffing other '
-               'than the two CSV detectors, encoding/csv quoting / comments / TrimLeadingSpace, bufio line splitting) are exercised, not modelled; the annotation part of the old '
-               'format is modelled for the sub-grammar key=word; only (ParseOBIFeatures is C02); text is ASCII. A CSV text that is not detected as CSV is assumed to be '
-               'rejected by the old reader (no line with six blank-separated fields). Observation (not a property violation, no patch): OBIMimeNGSFilterTypeGuesser '
-               'registers one more CSV detector in the global mimetype tree at every call, so repeated readings get slower (the harness reads each sheet once per library). '
-               'Open finding (code left as it is, modelled as it is, theorem gating_breaks_symmetry): the hits of a complemented primer are collected only when the partner primer hits somewhere, so in reads with lone priming sites a hit lying between a forward hit and its complementary hit can be invisible to the state machine (pseudo-amplicon, and a different answer on the other strand). Three defects repaired in /repo '
-               '(tag-length error dropped, map-order dependence, primer-unicity error dropped): the model is of the repaired behaviour.',
+              'forward->reverse state machine) and of the semantic part of ngsfilter_read.go + the setters of ngslibrary.go / marker.go + differential '
+              'correspondence with the real ReadNGSFilter (library dump: every parameter, tag length, sample, annotation of every marker, or sheet-error / '
+              'fatal / panic) and ExtractMultiBarcodeSliceWorker and obimultiplex.IExtractBarcode (main output and file of unidentified reads), the primer '
+              'hits being obtained from the real matcher (C10) and handed to the model as data + generator-knows-the-answer oracle, strand-symmetry oracle, '
+              'brute-force safety oracle and determinism oracles (demultiplexing and sheet reading), history-independence oracle (a read after others on one '
+              'library object = the read on a fresh library), routing oracles (no unassigned record in the main output, nothing lost) and the tie of the '
+              'gating model (a search started at p = the hits of the whole read starting at p or after) on the real code',
+ 'level_text': 'Proved in Lean for all inputs on the transcription of multimatch.go: hamming_spec; levenshtein_is_edit_distance + levenshtein_eq_editDist (the '
+               'two-row programme = the textbook recurrence on the strings AS GIVEN: the recurrence is proved invariant under reversal) + '
+               'levenshtein_min_script (= the cost of a cheapest edit script, inductive specification Align, independent of any recurrence) + '
+               'levenshtein_metric (zero iff equal, symmetric, triangle inequality, length bounds); closest_unique / closest_unique_complete / '
+               'closest_unique_perm (a tag is returned iff it is the unique minimiser, whatever the order in which the Go map delivers the tags); '
+               'never_wrong_sample (a sample is returned only if the proposed pair is declared for it and each proposed tag is identified from the extracted '
+               'tag under strict / hamming / indel), under the hypothesis that CheckTagLength accepted the sheet (wf_tags_nonempty, tagExtractor_untagged), '
+               'with the counterexample wrong_sample_without_taglength_check (the input that failed on the unrepaired code), and '
+               'accepted_sheet_never_wrong_sample: that hypothesis is discharged for every marker of a sheet accepted by the model of ReadNGSFilter in either '
+               'format (accepted_sheet_wellformed: primer unicity survives the @param lines, CheckTagLength holds; params_touch_parameters_only: no @param '
+               'line, whatever its name / arity / value, changes primers or the tag pair -> sample table); unassigned_is_flagged / no_amplicon_is_flagged; '
+               'constructed_read (fixed tags) and constructed_read_any_tags (each side fixed-length OR delimited without rescue: any flanks, the declared '
+               'spacers, absent tags, any marker position in the sheet, all three modes: exactly one amplicon = barcode, forward, matches, tags, declared '
+               'sample, given primer hits at the built sites only); constructed_read_rc(_any_tags) and strand_symmetry(_any_tags) (the reverse-complemented '
+               'built read with the mirrored hits gives the same amplicon, direction flipped — the different window widths of the two delimited extractors are '
+               'proved immaterial on built reads, and delimited_window_asymmetry shows the exact read shape, outside built reads, where they matter); '
+               'constructed_read_rescue / constructed_read_rc_rescue / strand_symmetry_rescue (each side fixed, delimited OR RESCUE — delimiter + tag indels, '
+               'the observed tag with insertions / deletions within the declared number of indels between two borders, a non-delimiter base before the outer '
+               'border: exactly one amplicon with the observed tags, identification = nearest unique declared tag; the two rescue windows have the same width, '
+               'so the reverse complement gives the same amplicon, direction flipped; rescue_scanner_layout is the statement on lookForRescueTag itself, '
+               'rescue_limits the exact counterexamples: no base before the outer border -> tag lost, outer border longer than declared -> the extra '
+               'delimiters join the tag); machine_selects_adjacent_pairs and pairing_strand_symmetric (chimeras: the state machine extracts exactly the '
+               'adjacent forward/complementary hit pairs, and that selection is mirror-symmetric); symmetric_class + symmetric_iff_ungated + '
+               'gated_hits_break_mirror (strand symmetry beyond built reads, in terms of hit lists: for ALL the hits of the four patterns of every marker, '
+               'separated — no two hits starting / ending at the same place, none nested — the sorted list collected on the reverse complement is the mirror '
+               'image of the list collected on the read, and the state machine extracts the mirrored pairs, IF AND ONLY IF the gating of the two complemented '
+               'searches drops nothing on either strand; a hit dropped on one strand is always collected on the other: the open gating finding is exactly the '
+               'complement of the class, known_finding_is_gated places its read there); amplicon_is_exact (ANY read, ANY hits: every amplicon comes from an '
+               'adjacent pair, its sequence is exactly Subsequence(f.End, m.Begin) between the two primer matches, reverse-complemented in reverse '
+               'orientation, matches / error counts / tags / identification read off the read at the two hits: EmitSpec); annotation_set (the complete '
+               'annotation list of an amplicon as a concatenation of blocks: primers, matches, error counts, non-empty tags, direction, per tagged side mode / '
+               "distance / proposed tag, then obimultiplex_error with its text OR sample, experiment and the sheet's annotation columns); record_error_flag + "
+               'main_output_is_assigned + routing_is_a_partition (model of IExtractBarcode: without --keep-errors, and in the main output with -u, only '
+               'amplicons that SampleIdentifier assigned, the sequence written being that barcode; --keep-errors writes everything; -u splits the records, '
+               'nothing lost). The models are tied to /repo by running the real ReadNGSFilter on generated CSV records / old-format lines (library dump '
+               'compared with the model of the reader) and ReadNGSFilter + ExtractMultiBarcodeSliceWorker on generated sheets (both formats) and built reads, '
+               'comparing every returned record (id, sequence, all annotations) with the model fed with the primer hits of the real matcher, on single reads '
+               "and on histories of reads on one library object, and the two output streams of the real obimultiplex stage with the model's routing; oracles "
+               'on the real code: generator intent, strand symmetry (incl. chimeras and delimited tags), brute-force safety, determinism over repeated runs, '
+               'independence of the reads demultiplexed before on the same library (catches the seeded per-marker nearest-tag cache C12-m3 with failing '
+               'histories),  sheet-as-read = sheet-as-declared.',
+ 'level_note': 'Trusted: Lean kernel; the transcriptions Model/Demux.lean and Model/NgsFilter.lean; the primer matcher (hits are data, C10). The model of the '
+               'gated searches used by symmetric_class (gate: a search started at position p returns the hits of the whole read starting at p or after) is an '
+               'assumption on the matcher, checked on every demux case against the real AllMatches (stat demux.gate-is-filter; required for mismatch-only '
+               'patterns, counted for patterns with indels). Partial: strand symmetry of what each selected pair YIELDS (barcode, matches, tags) is proved for '
+               'built reads with fixed-length, delimited or rescue tags; for arbitrary chimeras the pairing is proved symmetric on the class symmetric_class '
+               'and what each pair yields is the harness oracle (the tag windows can reach into a neighbouring amplicon). The rescue theorems need 0 < indels '
+               "< tag length and a non-delimiter base before the outer border (rescue_limits shows both failure shapes; the generator's built reads with "
+               'rescue markers and no outer base are in the correspondence, without expectation). The model has no state: that the real library object keeps '
+               'none between reads is the history oracle of the harness (multi cases), not a theorem. obimultiplex is modelled from the records of the worker '
+               'on (route); batching, parallel workers and the writers are C03/C04/C05; the file of unidentified reads is compared as (id, sequence, error '
+               'text). The sheet reader is modelled from the CSV records / the lines on: the byte-level layers (mimetype text sniffing other than the two CSV '
+               'detectors, encoding/csv quoting / comments / TrimLeadingSpace, bufio line splitting) are exercised, not modelled; the annotation part of the '
+               'old format is modelled for the sub-grammar key=word; only (ParseOBIFeatures is C02); text is ASCII. A CSV text that is not detected as CSV is '
+               'assumed to be rejected by the old reader (no line with six blank-separated fields). Observation (not a property violation, no patch): '
+               'OBIMimeNGSFilterTypeGuesser registers one more CSV detector in the global mimetype tree at every call, so repeated readings get slower (the '
+               'harness reads each sheet once per library). Open finding (code left as it is, modelled as it is, theorem gating_breaks_symmetry): the hits of '
+               'a complemented primer are collected only when the partner primer hits somewhere, so in reads with lone priming sites a hit lying between a '
+               'forward hit and its complementary hit can be invisible to the state machine (pseudo-amplicon, and a different answer on the other strand). '
+               'Three defects repaired in /repo (tag-length error dropped, map-order dependence, primer-unicity error dropped): the model is of the repaired '
+               'behaviour.',
  'trusted_base': LEAN_TB + ['the primer hits (AllMatches of the four compiled patterns of each marker) are data of the model: the matcher is property C10',
-                            'pkg/obingslibrary/verif_hooks.go (read-only accessors to the compiled patterns, the sample table and the two private scanners)',
-                            'the sheet renderers (markers -> text, CSV records -> text) and the reference identification (naive Hamming / memoised recursive edit distance / unique minimiser) of the harness',
-                            'encoding/csv, bufio and the generic part of mimetype detection (exercised, not modelled)'],
- 'modelled': 'pkg/obingslibrary multimatch.go (Hamming, Levenshtein, lookForTag, lookForRescueTag, begin/end Fixed/Delimited/Rescue tag extractors, TagExtractor, '
-             'ClosestForwardTag/ClosestReverseTag, SampleIdentifier, ExtractMultiBarcode), marker.go (CheckTagLength, GetPCR, the Set… setters, normalizeTagDelimiter), '
-             'ngslibrary.go (GetMarker, CheckPrimerUnicity, Set… / Set…For); pkg/obiformats ngsfilter_read.go (ReadNGSFilter, ReadCSVNGSFilter from the records on, '
-             'ReadOldNGSFilter from the lines on, _parseMainNGSFilter(Tags), the table library_parameter, NGSFilterCsvDetector + the text/csv detector of mimetype)',
+                  'a search of a primer pattern started at position p returns the hits of the whole read that start at p or after (model `gate` of the '
+                  'symmetry theorems; checked against the real matcher on every case)',
+                  'pkg/obingslibrary/verif_hooks.go (read-only accessors to the compiled patterns, the sample table and the two private scanners)',
+                  'the sheet renderers (markers -> text, CSV records -> text) and the reference identification (naive Hamming / memoised recursive edit '
+                  'distance / unique minimiser) of the harness',
+                  'encoding/csv, bufio and the generic part of mimetype detection (exercised, not modelled)',
+                  'harness/c12_multi.go reaches the unexported option variable obimultiplex._UnidentifiedFile through go:linkname to clear -u between cases '
+                  "(the option parser cannot); every other option goes through the command's own parser"],
+ 'modelled': 'pkg/obingslibrary multimatch.go (Hamming, Levenshtein, lookForTag, lookForRescueTag, begin/end Fixed/Delimited/Rescue tag extractors, '
+             'TagExtractor, ClosestForwardTag/ClosestReverseTag, SampleIdentifier, ExtractMultiBarcode), marker.go (CheckTagLength, GetPCR, the Set… setters, '
+             'normalizeTagDelimiter), ngslibrary.go (GetMarker, CheckPrimerUnicity, Set… / Set…For); pkg/obiformats ngsfilter_read.go (ReadNGSFilter, '
+             'ReadCSVNGSFilter from the records on, ReadOldNGSFilter from the lines on, _parseMainNGSFilter(Tags), the table library_parameter, '
+             'NGSFilterCsvDetector + the text/csv detector of mimetype); pkg/obitools/obimultiplex demultiplex.go (IExtractBarcode: FilterOn / DivideOn on '
+             'obimultiplex_error under --keep-errors / -u)',
  'assumptions': ['reads and tags are made of a/c/g/t (the reverse complement is the involution proved in C07 on its alphabet)',
                  'PCR annotation values are plain words (typed values of the old format are C02)',
-                 'sample sheets are ASCII; CSV fields contain no comma, quote or line break']}
+                 'sample sheets are ASCII; CSV fields contain no comma, quote or line break',
+                 'the sample sheet defines no annotation column named obimultiplex_error (hypothesis NoErrorKey of the routing theorems)']}
